@@ -7,6 +7,7 @@ import (
 	"math/rand"
 
 	"github.com/protobom/protobom/pkg/sbom"
+	"google.golang.org/protobuf/proto"
 	"google.golang.org/protobuf/types/known/timestamppb"
 )
 
@@ -270,6 +271,22 @@ func (g *G) Node(id string, richness float64) *sbom.Node {
 	}
 	if on() {
 		n.PrimaryPurpose = g.Purposes(2)
+	}
+	// repeated entries in collections (legal, and relevant to set semantics)
+	if g.Chance(0.25) && len(n.Licenses) > 0 {
+		n.Licenses = append(n.Licenses, n.Licenses[0])
+	}
+	if g.Chance(0.25) && len(n.Suppliers) > 0 {
+		n.Suppliers = append(n.Suppliers, proto.Clone(n.Suppliers[g.Int(len(n.Suppliers))]).(*sbom.Person))
+	}
+	if g.Chance(0.25) && len(n.Originators) > 0 {
+		n.Originators = append(n.Originators, proto.Clone(n.Originators[0]).(*sbom.Person))
+	}
+	if g.Chance(0.25) && len(n.ExternalReferences) > 0 {
+		n.ExternalReferences = append(n.ExternalReferences, proto.Clone(n.ExternalReferences[g.Int(len(n.ExternalReferences))]).(*sbom.ExternalReference))
+	}
+	if g.Chance(0.2) && len(n.PrimaryPurpose) > 0 {
+		n.PrimaryPurpose = append(n.PrimaryPurpose, n.PrimaryPurpose[0])
 	}
 	return n
 }
